@@ -90,6 +90,20 @@ class Mode:
             return SymArray(a.reshape(shape), dtype)
         return np.array(elems, dtype=dtype).reshape(shape)
 
+    def distinct(self, *arrays):
+        """Assume all elements of the given arrays pairwise distinct (provenance labels: the
+        values are payload that never influences control flow; distinctness lets the concrete
+        replay recognise rows by value as the symbolic run does by symbol)."""
+        ts = []
+        for a in arrays:
+            ts += [t for t in self.vals(a) if t is not None]
+        if self.symbolic:
+            if len(ts) > 1:
+                Ctx.cur.add(z3.Distinct(*ts))
+        else:
+            if len(set(ts)) != len(ts):
+                raise core.Abort("provenance values not distinct in the replay")
+
     def assume(self, f):
         if self.symbolic:
             Ctx.cur.add(self._f(f))
